@@ -343,6 +343,38 @@ func c25Sorted(c *Ctx, f *ssa.Function) {
 				okCmp = true
 			}
 		}
+		// or a package helper applied to the two entries' Hash fields (in that order) that is decided to be the
+		// lexicographic order of unsigned bytes
+		if !okCmp {
+			allInstrs(cmp, func(in ssa.Instruction) {
+				r, isR := in.(*ssa.Return)
+				if !isR || len(r.Results) != 1 {
+					return
+				}
+				call, isCall := stripConv(r.Results[0]).(*ssa.Call)
+				if !isCall || call.Call.StaticCallee() == nil || len(call.Call.Args) != 2 {
+					return
+				}
+				a0, a1 := abbr(exprStr(call.Call.Args[0], o)), abbr(exprStr(call.Call.Args[1], o))
+				okArgs := false
+				for _, lst := range []string{"*fv0", "fv0"} {
+					for _, suf := range []string{"", "[:]"} {
+						if (a0 == "&"+lst+"[p0].Hash"+suf || a0 == lst+"[p0].Hash"+suf) && (a1 == "&"+lst+"[p1].Hash"+suf || a1 == lst+"[p1].Hash"+suf) {
+							okArgs = true
+						}
+					}
+				}
+				if !okArgs {
+					shape = call.Call.StaticCallee().Name() + "(" + a0 + ", " + a1 + ")"
+					return
+				}
+				if ok, why := bfLexLess(call.Call.StaticCallee()); ok {
+					okCmp = true
+				} else {
+					shape = call.Call.StaticCallee().Name() + " — " + why
+				}
+			})
+		}
 	}
 	c.Check(okCmp, "C25.reported-sorted", K+"MapWorkReportFromEg · comparator", sortCall.Pos(), "orders by bytes.Compare of the Hash fields, ascending", "the comparator is "+shape+", not ascending bytes.Compare of the two entries' Hash")
 	// the sorted list is the returned one, and the sort runs whenever there is more than one entry
